@@ -41,7 +41,8 @@ func runLedgerHist(t *testing.T, in []string) string {
 			hh.Out = append(hh.Out, "HALT "+shortLog(br.Err+br.Process))
 			return
 		}
-		hh.Out = append(hh.Out, dumpSlash(c)[1])
+		ds := dumpSlash(c)
+		hh.Out = append(hh.Out, ds[1], ds[2], ds[3]) // P (pools against the ledger), E (escrow records), K (fee-from-stake records)
 	}
 	for _, op := range strings.Split(in[2], ";") {
 		h.Exec(op)
